@@ -20,10 +20,14 @@ import PydapModel.Cache
 import Proofs.Cache
 import PydapModel.Consolidate
 import Proofs.Consolidate
+<<<<<<< HEAD
 import PydapModel.Transport
 import Proofs.Transport
 import PydapModel.Sessions
 import Proofs.Sessions
+=======
+import Proofs.ClientSrc
+>>>>>>> agent-trans4
 namespace Pydap.C18
 open Pydap Pydap.Proxy
 
@@ -468,6 +472,7 @@ example : ∀ g ∈ exFiles, ∃ r, g.path = '/' :: r := by
   · exact ⟨_, rfl⟩
 example : 1 ∉ slabSel 3 (0, 1, 0) ∧ slabSel 3 (0, 1, 2) = [0, 1, 2] ∧ slabSel 5 (0, 1, 2) = [0, 1, 2] := by decide
 
+<<<<<<< HEAD
 /-! ### several sessions in one process -/
 -- model: PydapModel/Sessions.lean — a process is a list of sessions; `create_session` gives every session its own
 -- backend object, `patch_session_for_shared_dap_cache` installs the key closure on THAT object
@@ -676,5 +681,55 @@ example : readsCached List.tail (fun _ : Nat => 0) (serve (fun b => 0x1f :: b) (
       [⟨1, .whole, false, []⟩, ⟨2, .whole, false, []⟩]
     ≠ readsPlain List.tail (serve (fun b => 0x1f :: b) (fun u => [u.toUInt8]) (fun _ => true)) [⟨1, .whole, false, []⟩, ⟨2, .whole, false, []⟩] := by
   decide
+=======
+/-! ### the tie by translation: the *source text* of the texts `consolidate_metadata` builds
+
+Five blocks of client.py `consolidate_metadata`, translated on every run by harness/py2lean.py from the working tree
+(PydapModel/Generated/ClientSrc.lean): the ELEMENT expressions of the comprehensions `dim_ces`, `new_urls`, `URLs`,
+`dmr_urls`, and the statement `base_url = URLs[0].split("?")[0]`.  Interpreted by MiniPy they compute the model's
+`declText` / `dimReq … .url` / `"http" + url[4:]` / `dmrReq … .url` / `baseUrlText` for every dimension name, every
+size and every URL.  `results[0].dimensions[dim]` is the input `@size` (that the size is looked up in the FIRST result is
+pinned by the text the generator requires).  A URL text and its `urlparse` parts are related by `urlTextOf`;
+`NoQ`: host and path hold no '?' (the first '?' of a URL starts its query: `urlparse`).  Not carried: which `dim`s the
+comprehensions run over and in which order (a `set`), the thread pool, `patch_session_for_shared_dap_cache`. -/
+
+section SourceTie
+open MiniPy Cons
+
+/-- an element of `dim_ces`: `dim + "[0:1:" + str(size - 1) + "]"` is `declText` (also for size 0: `"[0:1:-1]"`) -/
+theorem C18_source_dim_ce (d : List Char) (n : Nat) :
+    runItem [("dim", .str (codesOf d)), ("@size", .int n)] Gen.src_consolidate_dim_ce "@elt"
+      = .ok (.str (codesOf (declText d n))) := src_consolidate_dim_ce_eq d n
+
+/-- a pre-fetch URL is `dimReq`'s: the percent-escaped form of the same constraint on the first file's base URL -/
+theorem C18_source_new_url (f0 : FileIn) (d : List Char) (n : Nat) :
+    runItem [("base_url", .str (codesOf (baseUrlText f0))), ("dim", .str (codesOf d)), ("@size", .int n)]
+        Gen.src_consolidate_new_url "@elt"
+      = .ok (.str (codesOf (dimReq f0 d n).url)) := src_consolidate_new_url_eq f0 d n
+
+/-- `"http" + urls[i][4:]` of a `dap4://…` URL: the same URL with scheme `http` -/
+theorem C18_source_http_url (f : FileIn) (hs : f.scheme = dap4Lit) :
+    runItem [("@url", .str (codesOf (urlTextOf f)))] Gen.src_consolidate_http_url "@elt"
+      = .ok (.str (codesOf (httpTextOf f))) := src_consolidate_http_url_eq f hs
+
+/-- the DMR request: `url + ".dmr"` without a query, `url.replace("?", ".dmr?")` (every '?') with one -/
+theorem C18_source_dmr_url (f : FileIn) (h : NoQ f) :
+    runItem [("url", .str (codesOf (httpTextOf f)))] Gen.src_consolidate_dmr_url "@elt"
+      = .ok (.str (codesOf (dmrReq f).url)) := src_consolidate_dmr_url_eq f h
+
+/-- `base_url` is the first URL up to its query -/
+theorem C18_source_base_url (f0 : FileIn) (h : NoQ f0) :
+    runItem [("@URL0", .str (codesOf (httpTextOf f0)))] Gen.src_consolidate_base_url "base_url"
+      = .ok (.str (codesOf (baseUrlText f0))) := src_consolidate_base_url_eq f0 h
+
+/-- non-vacuity: the example file satisfies the hypotheses, and a URL with a query whose text holds a second '?' -/
+example : exFileA.scheme = dap4Lit ∧ NoQ exFileA ∧
+    NoQ ⟨dap4Lit, "h".toList, "/p/a.nc".toList, some "x=1?y".toList, none, [], []⟩ ∧
+    (dmrReq ⟨dap4Lit, "h".toList, "/p/a.nc".toList, some "x=1?y".toList, none, [], []⟩).url
+      = "http://h/p/a.nc.dmr?x=1.dmr?y".toList := by
+  refine ⟨by decide, ⟨by decide, by decide⟩, ⟨by decide, by decide⟩, by decide⟩
+
+end SourceTie
+>>>>>>> agent-trans4
 
 end Pydap.C18
